@@ -8,6 +8,7 @@ import (
 	"encoding/json"
 	"fmt"
 	"math/rand"
+	"sort"
 	"strings"
 	"sync"
 	"time"
@@ -228,4 +229,148 @@ func containsStr(s, sub string) bool {
 		}
 	}
 	return false
+}
+
+// ReplayFree: the chain actions of a history are performed and their notifications delivered with the
+// follower and the worker running FREELY (no step gate): block steps overlap further chain changes,
+// also in the middle of a step.  Whatever the interleaving, once everything is processed the wallet
+// must present the ledger of the final best chain (SyncedWhenQuiet, LedgerWhenQuiet); what depends on
+// the interleaving (the pending set and the flags derived from it) is not compared.
+func ReplayFree(u *Universe, h History, dir string, seed int64) (res Result) {
+	res.OK = true
+	for i := range h {
+		switch h[i].A {
+		case "Crash", "Restart", "RestartCrash", "RemoveStepCrash":
+			return Result{OK: false, Err: "harness: free-running replay of a history with crashes"}
+		}
+	}
+	if len(h) == 0 || !h[len(h)-1].Exp.Q {
+		return Result{OK: false, Err: "harness: history does not end quiescent"}
+	}
+	w, err := NewWorld(u, dir, 5)
+	if err != nil {
+		return Result{OK: false, Step: -1, Err: "setup: " + err.Error()}
+	}
+	defer w.Close()
+	w.G.Open()
+	rnd := rand.New(rand.NewSource(seed))
+	flush := func() {
+		for _, b := range w.qB {
+			w.H.OnBlockConnected(w.Blk[b].MsgBlock())
+		}
+		for _, t := range w.qT {
+			w.H.OnTransactionReceived(w.Tx[t])
+		}
+		w.qB, w.qT = nil, nil
+	}
+	for i := range h {
+		s := &h[i]
+		switch s.A {
+		case "HandleBlock", "HandleTx", "RemoveStepA":
+			continue
+		case "ImportStep", "RemoveStep", "RemoveStepB":
+			// the API calls that follow in the history presuppose that this task has got that far
+			if s.A != "ImportStep" || s.Done {
+				if err := w.waitTask(s.W, s.A != "ImportStep"); err != nil {
+					return Result{OK: false, Step: i, Action: s.A, Sig: "free-not-quiescent", Compared: 1,
+						Diffs: []Diff{{Kind: "free-not-quiescent", What: "free-running worker", Want: "the background task finishes within 30s", Got: err.Error()}}}
+				}
+			}
+			continue
+		}
+		if err := w.doFree(s); err != nil {
+			return Result{OK: false, Step: i, Action: s.A, Err: err.Error()}
+		}
+		flush()
+		if d := rnd.Intn(4); d > 0 {
+			time.Sleep(time.Duration(rnd.Intn(1500)) * time.Microsecond)
+		}
+	}
+	// wait for quiescence
+	exp := &h[len(h)-1].Exp
+	deadline := time.Now().Add(30 * time.Second)
+	for {
+		nb, nt := w.H.VerifQueued()
+		st, serr := w.W.SyncedTo()
+		idle := nb == 0 && nt == 0 && w.H.VerifTaskQueueLen() == 0 && serr == nil && int(st)-u.Offset == exp.Synced
+		if idle {
+			ready := true
+			if sums, err := w.W.Wallets(); err == nil {
+				for _, sm := range sums {
+					if sm.Status != nil && (!sm.Status.Ready() || sm.Status.IsRemoved()) {
+						ready = false
+					}
+				}
+			}
+			if ready {
+				break
+			}
+		}
+		if time.Now().After(deadline) {
+			return Result{OK: false, Step: len(h) - 1, Sig: "free-not-quiescent", Compared: 1,
+				Diffs: []Diff{{Kind: "free-not-quiescent", What: "free-running follower", Want: fmt.Sprintf("synced to height %d with nothing queued within 30s", exp.Synced),
+					Got: fmt.Sprintf("synced %d (err %v), queued blocks %d txs %d, tasks %d", int(st)-u.Offset, serr, nb, nt, w.H.VerifTaskQueueLen())}}}
+		}
+		time.Sleep(3 * time.Millisecond)
+	}
+	time.Sleep(20 * time.Millisecond) // a step that has taken its item off the queue may still be committing
+	diffs, err := w.Compare(exp)
+	if err != nil {
+		return Result{OK: false, Step: len(h) - 1, Err: "compare: " + err.Error()}
+	}
+	res.Compared = 1
+	var keep []Diff
+	for _, d := range diffs {
+		if strings.HasPrefix(d.Kind, "pending-") || d.Kind == "utxo-sbu" || d.Kind == "deposit-sbu" || d.Kind == "coin-not-buildable" || d.Kind == "selected-pending-spent" {
+			continue
+		}
+		keep = append(keep, d)
+	}
+	if len(keep) > 0 {
+		kinds := map[string]bool{}
+		for _, d := range keep {
+			kinds[d.Kind] = true
+		}
+		var ks []string
+		for k := range kinds {
+			ks = append(ks, k)
+		}
+		sort.Strings(ks)
+		return Result{OK: false, Step: len(h) - 1, Action: "free", Diffs: keep, Compared: 1, Sig: strings.Join(ks, ",")}
+	}
+	return res
+}
+
+// doFree performs a chain / API action of a history without touching the step gates.
+func (w *World) doFree(s *Step) error {
+	switch s.A {
+	case "Extend", "Fork", "ForkSlow", "ReorgStep", "SwitchTo", "Announce", "Import", "Remove":
+		return w.Do(s)
+	}
+	return fmt.Errorf("harness: action %q in a free-running replay", s.A)
+}
+
+// waitTask waits until the removal (gone) or the import (ready) of the wallet has finished.
+func (w *World) waitTask(name string, gone bool) error {
+	wl := w.Wals[name]
+	deadline := time.Now().Add(30 * time.Second)
+	for {
+		sums, err := w.W.Wallets()
+		if err == nil {
+			found, ready := false, false
+			for _, sm := range sums {
+				if sm.WalletID == wl.ID {
+					found = true
+					ready = sm.Status != nil && sm.Status.Ready() && !sm.Status.IsRemoved()
+				}
+			}
+			if (gone && !found) || (!gone && ready) {
+				return nil
+			}
+		}
+		if time.Now().After(deadline) {
+			return fmt.Errorf("wallet %s: gone=%v not reached (err %v)", name, gone, err)
+		}
+		time.Sleep(2 * time.Millisecond)
+	}
 }
